@@ -287,7 +287,12 @@ class CursorAwareWindow(BaseWindow, ContextManager["CursorAwareWindow"]):
             Cbreak(self.in_stream) if not self._use_blessed else self.t.cbreak()
         )
         self.cbreak.__enter__()
-        self.top_usable_row, _ = self.get_cursor_position()
+        try:
+            self.top_usable_row, _ = self.get_cursor_position()
+        except BaseException:
+            # __exit__ is not called when __enter__ fails: put the tty back ourselves
+            self.cbreak.__exit__(*sys.exc_info())
+            raise
         self._orig_top_usable_row = self.top_usable_row
         logger.debug("initial top_usable_row: %d" % self.top_usable_row)
         return super().__enter__()
